@@ -172,7 +172,11 @@ func genCache(r *Rng, n int, tier string) []Case {
 		for j := r.Range(1, 3); j > 0; j-- {
 			ops = append(ops, fmt.Sprintf("get k=%s v=%d s=%d", keys[r.Intn(3)], r.Range(1, 3), r.Intn(250)))
 		}
-		if r.Chance(50) {
+		if r.Chance(30) {
+			// two readers of one block; the block may be larger than the whole cache (a cache configured smaller than its block size)
+			k := keys[r.Intn(5)]
+			ops = append(ops, fmt.Sprintf("staleget k=%s e=%s n=%d", k, k, r.Pick(1, mx, mx+1, mx+1, 3)))
+		} else if r.Chance(50) {
 			ops = append(ops, "clearfire k="+keys[r.Intn(3)])
 		} else {
 			ops = append(ops, fmt.Sprintf("staleget k=%s e=%s n=%d", keys[r.Intn(3)], keys[3+r.Intn(2)], r.Pick(1, mx, mx-1, 3)))
